@@ -85,6 +85,8 @@ struct InvPlan {
   int stream = 100;
   int nproc = 4;
   bool record_sys = false;   // probe run: record the kind of every syscall
+  std::string status_fmt;    // C13: arbitrary status format (NINJA_STATUS when status_mode==1, --status when 2)
+  bool garbage_child_output = false;   // C13: deps = msvc children print arbitrary bytes
 };
 
 struct InvRecord {
